@@ -259,6 +259,7 @@ def run_async(case, T):
     r, w = os.pipe()
     sp = fdpexpect.fdspawn(r, **_mk_kwargs(case))
     sp.logfile_read = log
+    result = {}
 
     async def go():
         async def writer():
@@ -270,14 +271,28 @@ def run_async(case, T):
             os.close(w)
         wt = asyncio.ensure_future(writer())
         try:
-            await sp.expect(EOF, async_=True, timeout=10)
+            if case['maxread'] == 1:
+                # many awaited calls, each finishing after one character: the decoder state has to survive from
+                # one call to the next (a character may be split between the data of two calls)
+                got = T()
+                dot = '.' if T is str else b'.'
+                while True:
+                    i = await sp.expect([dot, EOF], async_=True, timeout=10)
+                    got += sp.before
+                    if i == 1:
+                        break
+                    got += sp.after
+                result['got'] = got
+            else:
+                await sp.expect(EOF, async_=True, timeout=10)
+                result['got'] = sp.before
         finally:
             await wt
     loop = asyncio.new_event_loop()
     try:
         with guard('asyncio path', allow=(EOF, TIMEOUT)):
             loop.run_until_complete(go())
-        return sp.before, log
+        return result['got'], log
     except TIMEOUT:
         raise Violation('timeout-on-closed-stream', 'async: TIMEOUT on a closed pipe')
     finally:
